@@ -403,6 +403,17 @@ pub fn plan(tier: Tier) -> Plan {
             do_case(&kvs, Front::MapExtendStreamMap, DEFAULT_GEOM, false, st, rep);
         }
     }));
+    // (d4a) twin family: the same wide node compiled again, under every tiny cache geometry
+    p.units.push(unit("twin-wide-nodes-under-tiny-caches", "twins".into(), move |st, rep| {
+        for (_, kvs) in twin_family() {
+            st.nontrivial += 1;
+            st.count("twin_cases", 1);
+            for g in GEOMS {
+                do_case(&kvs, Front::RawInsert, g, false, st, rep);
+            }
+            do_case(&kvs, Front::MapInsert, DEFAULT_GEOM, false, st, rep);
+        }
+    }));
     // (d4b) key-length ladder: every length 2..1100 and around 2^11..2^16
     for part in 0..16usize {
         p.units.push(unit("key-length-ladder-(finite-family)", format!("length ladder part {}", part), move |st, rep| {
